@@ -119,7 +119,7 @@ def render(hist, files, r):
         elif kind == "Stmt":
             out.append("\n  " + stmt_text(ev["st"], files, src, r))
         elif kind == "Refuse":
-            out.append("\n  " + UNSUPPORTED[ev["kind"]])
+            out.append("\n  " + unsupported_text(ev["kind"], r))
     close()
     return "".join(out), extern
 
@@ -138,6 +138,17 @@ UNSUPPORTED = {
     "symbol_ref": "jump nosuch?:main;",
     "source_attr": "load 0x55.b > ;",
 }
+
+
+def unsupported_text(kind, r):
+    """Text of a construct the R-spec lists as unsupported; the families (pattern_mem_<id>) are rendered with a seeded spelling."""
+    if kind.startswith("pattern_mem_"):
+        m = int(kind.rsplit("_", 1)[1])
+        opt = r.choice([f"@{m} ", f"@({m - 1} + 1) ", f"@{m:#x} "] + ([MEM_NAMES[m] + " "] * 3 if m in MEM_NAMES else []))
+        pat = r.choice(["0x55.b", "0x1122.h", "0x12345678", "0xFFFFFFFF", "305419896", "0xA5", "0x12345678.w"])
+        to = r.choice(["0x8000000", "0x8000000..0x8000100", "0x1000..0x2000", "4096"])
+        return f"load {opt}{pat} > {to};"
+    return UNSUPPORTED[kind]
 
 
 # documented keywords of the memory option (elftosb / blhost user's guides) and the memory ids they stand for
@@ -169,6 +180,13 @@ def stmt_text(st, files, src, r):
             return f'load {mem(st["mem"], r)}"{files(st["data"])}" > {show(st["addr"], r=r)};'
         name = src[id(st)][0]
         return f"load {mem(st['mem'], r)}{name} > {show(st['addr'], r=r)};"
+    if s in ("prog_pat", "prog_blob"):
+        opt = r.choice(["ifr ", "fuse ", "@4 ", "@(2 + 2) "])
+        if s == "prog_pat":
+            data = r.choice([f"{st['pat']:#x}", f"{st['pat']:#X}".replace("0X", "0x"), str(st["pat"]), f"{st['pat']:#010x}"])
+        else:
+            data = "{{" + " ".join(f"{b:02x}" for b in st["blob"]) + "}}"
+        return f"load {opt}{data} > {show(st['addr'], r=r)};"
     if s == "fill":
         return f"load {st['pat']:#x}.{st['sz']} > {show(st['addr'], r=r)};"
     if s == "fill_range":
@@ -222,6 +240,9 @@ def project(cmd):
         rec.update(t="load", a=cmd.address, n=len(cmd.data), m=cmd.mem_id, d=list(cmd.data))
     elif isinstance(cmd, C.CmdFill):
         rec.update(t="fill", a=cmd.address, n=cmd.header.count, d=list(cmd.pattern))
+    elif isinstance(cmd, C.CmdProg):
+        words = [cmd.data_word1] + ([cmd.data_word2] if cmd.is_eight_byte else [])
+        rec.update(t="prog", a=cmd.address, n=4 * len(words), m=cmd.mem_id, d=[(w >> (8 * i)) & 0xFF for w in words for i in range(4)])
     elif isinstance(cmd, C.CmdErase):
         rec.update(t="erase", a=cmd.address, n=cmd.length, f=cmd.flags & 0x3, m=cmd.mem_id)
     elif isinstance(cmd, C.CmdMemEnable):
@@ -484,8 +505,15 @@ def run(tier):
         r.shuffle(progs3)
         progs3 = progs3[:400]
     if tier == "quick":
+        # seeded subset, stratified: every refused construct and at least 40 programs of every statement kind are always in it
         r.shuffle(progs)
-        progs = progs[:1500]
+        kind_of = (lambda h: next((e["kind"] if e["ev"] == "Refuse" else e["st"]["s"] for e in h if e["ev"] in ("Stmt", "Refuse")), "-"))
+        seen, first, rest = {}, [], []
+        for h in progs:
+            k = kind_of(h)
+            seen[k] = seen.get(k, 0) + 1
+            (first if seen[k] <= 40 else rest).append(h)
+        progs = first + rest[:max(0, 1500 - len(first))]
     allp = progs + progs2 + progs3
     for h in allp:  # data files are created before forking so that every worker sees the same paths
         for ev in h:
